@@ -4,8 +4,10 @@ CONSTANT MaxF
 Kinds == {"ok", "bad", "cut"}
 Frames == UNION {[1..n -> Kinds] : n \in 0..MaxF}
 OKF(f) == \A i \in 1..Len(f) : f[i] = "cut" => i = Len(f)
-Scen == [many : BOOLEAN, sel : SelKinds, frames : {f \in Frames : OKF(f)}, cutWarns : BOOLEAN, discardAfter : 0..MaxF]
-MCInit == sc \in Scen /\ Init0
+Scen == [many : BOOLEAN, sel : SelKinds, frames : {f \in Frames : OKF(f)}, cutWarns : BOOLEAN, discardAfter : 0..MaxF,
+         neverStarted : BOOLEAN]
+OKS(s) == s.neverStarted => (s.many /\ s.discardAfter = 0)
+MCInit == sc \in Scen /\ OKS(sc) /\ Init0
 Spec == MCInit /\ [][Next]_vars /\ WF_vars(Next)
 Live == <>(pc = "done")
 ====
